@@ -90,3 +90,58 @@ SIM_SCENARIO(scen_c20, "c20", "C20", 6000000, 30000) {
     for (int id : fids) sim::join(id);
     if (other_units) sim::probe("other-work-ran");
 }
+
+// c20b — two application threads in a fully reserved arena(2,2): M2 suspends at a nested dispatch level and stays
+// busy on its coroutine with a hold task H, M1 suspends at the outermost level of its execute() (no dispatch loop
+// below), a foreign thread resumes both in either order with drawn delays.  When sp2 is resumed first the only idle
+// thread, M1, continues M2's body on M2's stack and waits there; resume(sp1) must then bring M1 back to its own
+// code (owner recall), which is what lets H, the inner wait and both execute() calls finish.
+SIM_SCENARIO(scen_c20b, "c20b", "C20", 6000000, 30000) {
+    hx::Desc d;
+    hx::draw_runtime_config(d);
+    bool sp2_first = sim::draw(4, "order") != 0;
+    int d1 = (int)sim::draw(120, "delay1"), d2 = (int)sim::draw(400, "delay2"), extra = (int)sim::draw(3, "extra_tasks");
+    bool m1_nested_too = sim::draw(4, "m1_nested") == 0;     // control: M1 suspends inside a task instead
+    d.add(hx::fmt("outermost/nested suspend pair in arena(2,2): %s first, delays %d/%d, extra=%d, m1_nested=%d", sp2_first ? "sp2" : "sp1", d1, d2, extra, (int)m1_nested_too));
+    d.publish();
+    tbb::task_arena arena(2, 2);
+    tbb::task_group tg2, inner;
+    tbb::task::suspend_point sp1{}, sp2{};
+    sim::event h_started, have_sp1, have_sp2;
+    bool resumed1 = false, resumed2 = false;
+    int after1 = 0, cont2 = 0, extra_ran = 0;
+    int m2 = sim::spawn([&] {
+        arena.execute([&] {
+            tg2.run_and_wait([&] {
+                inner.run([&] { h_started.signal(); while (after1 == 0) sim::point(sim::K_YIELD, nullptr); });      // H (spins like library code: a yield point)
+                for (int i = 0; i < extra; ++i) inner.run([&] { sim::upoint(); ++extra_ran; });
+                tbb::task::suspend([&](tbb::task::suspend_point p) { sp2 = p; have_sp2.signal(); });
+                SIM_CHECK(resumed2, "oracle:resumed-without-resume", "the body suspended on sp2 continued although resume(sp2) was never called");
+                SIM_CHECK(++cont2 == 1, "oracle:resumed-twice", "the body suspended on sp2 continued a second time");
+                inner.wait();
+            });
+        });
+    }, "M2");
+    h_started.wait();
+    int m1 = sim::spawn([&] {
+        arena.execute([&] {
+            auto body = [&] {
+                tbb::task::suspend([&](tbb::task::suspend_point p) { sp1 = p; have_sp1.signal(); });
+                SIM_CHECK(resumed1, "oracle:resumed-without-resume", "the code suspended on sp1 continued although resume(sp1) was never called");
+                SIM_CHECK(++after1 == 1, "oracle:resumed-twice", "the code suspended on sp1 continued a second time");
+            };
+            if (m1_nested_too) { tbb::task_group g; g.run_and_wait(body); } else body();
+        });
+    }, "M1");
+    have_sp1.wait(); have_sp2.wait();
+    for (int i = 0; i < d1; ++i) sim::upoint();
+    if (sp2_first) { resumed2 = true; tbb::task::resume(sp2); } else { resumed1 = true; tbb::task::resume(sp1); }
+    for (int i = 0; i < d2; ++i) sim::upoint();
+    if (sp2_first) { resumed1 = true; tbb::task::resume(sp1); } else { resumed2 = true; tbb::task::resume(sp2); }
+    // both resumes have been called and nothing else is pending: the continuations run within a bounded number of steps
+    for (int i = 0; i < 400000 && !(sim::fiber_done(m1) && sim::fiber_done(m2)); ++i) sim::point(sim::K_YIELD, nullptr);
+    SIM_CHECK(after1 == 1, "oracle:never-resumed", "resume(sp1) was called but the code suspended at the outermost level never continued (400000 steps later)");
+    SIM_CHECK(cont2 == 1, "oracle:never-resumed", "resume(sp2) was called but the nested suspended body never continued (400000 steps later)");
+    sim::join(m1); sim::join(m2);
+    SIM_CHECK(extra_ran == extra, "oracle:wait-incomplete", "%d of %d sibling tasks ran", extra_ran, extra);
+}
